@@ -43,6 +43,12 @@ Class FldLaws (F : Type) {I : Fld F} : Prop := {
   nrm2_definite : forall v : list F, nrm2 v = f0 -> Forall (fun z => z = f0) v
 }.
 
+Lemma nth_firstn_lt {A} (l : list A) k i d : i < k -> nth i (firstn k l) d = nth i l d.
+Proof. revert k i; induction l as [|x l IH]; intros [|k] [|i] H; simpl; auto; try lia. apply IH; lia. Qed.
+
+Lemma nth_map_default {A B} (f : A -> B) l k d d' : f d = d' -> nth k (map f l) d' = f (nth k l d).
+Proof. intros <-. apply map_nth. Qed.
+
 Section FieldVec.
   Context {F : Type} {I : Fld F} {L : FldLaws F}.
   Add Field FF : (@Fth F I L).
